@@ -33,7 +33,8 @@ L1 == <<
     "||a|", "|a||",
     ">  ```", "#######", "   >  ~~~", "###### ", "#\t#",
     "[a]: javascript:x", "[A]: data:text/html,y 't'", "- [a]: /u", "> [a]: /u",
-    "- <!--", "  x -->", "1. <pre>", "- <?"
+    "- <!--", "  x -->", "1. <pre>", "- <?",
+    "> ===", "> ---"
 >>
 L1Core == {1, 5, 8, 10, 13, 15, 22, 23, 30, 33, 39, 45, 47, 53, 60, 72, 76, 82, 84, 90, 95}
 L2 == <<
@@ -48,7 +49,7 @@ L2 == <<
     "'s", "\"q\"", "1", "<!-- c -->", "<?p?>", "&#0;", "&#xD800;", "![a *b*](/s 't')",
     "(tM)", "(Tm)", "(C)", "(R)", "\\!!!!", "\\?", ",,", "\\,,"
 >>
-L1Mid == {125, 126, 127, 123, 124, 1, 4, 5, 7, 8, 9, 10, 11, 12, 13, 14, 15, 16, 22, 23, 24, 26, 27, 29, 30, 31, 33, 34, 39, 40, 45, 46, 47, 48, 53, 55, 56, 60, 61, 72, 73, 74, 76, 77, 82, 83, 84, 85, 90, 91, 92, 93, 94, 95, 96, 97, 98, 99}
+L1Mid == {129, 130, 125, 126, 127, 123, 124, 1, 4, 5, 7, 8, 9, 10, 11, 12, 13, 14, 15, 16, 22, 23, 24, 26, 27, 29, 30, 31, 33, 34, 39, 40, 45, 46, 47, 48, 53, 55, 56, 60, 61, 72, 73, 74, 76, 77, 82, 83, 84, 85, 90, 91, 92, 93, 94, 95, 96, 97, 98, 99}
 L2Core == {1, 2, 3, 6, 11, 15, 23, 26, 33, 44, 48, 50}
 L2Mid == {1, 2, 3, 4, 6, 8, 11, 13, 15, 16, 17, 18, 19, 22, 23, 24, 26, 27, 29, 30, 33, 35, 36, 40, 41, 44, 45, 48, 50, 51, 52, 57}
 L2All == 1..80
@@ -108,7 +109,8 @@ LQCore == 1..39
 (* byte-level fragments for the command-line entry point: "{x+HH}" is the byte HH *)
 LB == <<
     "a", "\n", "> ", "* ", "[", "](", "`", "{x+80}", "{x+c3}", "{x+c3}{x+a9}", "{x+ed}{x+a0}{x+80}",
-    "{x+ff}", "{x+00}", "{x+f0}{x+9f}{x+98}", "{x+f0}{x+9f}{x+98}{x+80}", "{x+c0}{x+af}", "\r", "\t"
+    "{x+ff}", "{x+00}", "{x+f0}{x+9f}{x+98}", "{x+f0}{x+9f}{x+98}{x+80}", "{x+c0}{x+af}", "\r", "\t",
+    "&#xDFFF;", "&#57343;", "&#xD800;", "![&#xdfff;](/u '&#xDFFF;')"
 >>
 LBCore == 1..18
 (* deep-nesting / repetition families: <<unit, middle, closing unit>>, document = unit^n middle closing^n *)
